@@ -305,6 +305,14 @@ class DiagonalReplicated(Operator):
             raise ValueError("Argument op may not be an Operator taking BlockArray input.")
         if is_nested(op.output_shape):
             raise ValueError("Argument op may not be an Operator with BlockArray output.")
+        if output_axis is not None:
+            if output_axis < 0:
+                output_axis = len(op.output_shape) + 1 + output_axis
+            if output_axis < 0 or output_axis > len(op.output_shape):
+                raise ValueError(
+                    "Argument output_axis must be positive and less than the number of axes "
+                    "in the output shape of op."
+                )
         self.op = op
         self.replicates = replicates
         self.input_axis = input_axis
